@@ -32,6 +32,7 @@ import (
 // rules the property lists, and an instance built from an accepted
 // configuration matches it over a backend history.
 type CfgWorld struct {
+	pre cfgOutcome // verdict on the well-formed set before any edit (same message objects)
 	World
 	multi      *configpb.LogMultiConfig
 	verdict    string   // accept | reject | unspecified (multi-config form)
@@ -432,6 +433,13 @@ func (w *CfgWorld) Init(s *kernel.Sim) {
 		}
 		m.LogConfigs.Config = append(m.LogConfigs.Config, c)
 	}
+	// The well-formed set is validated once as it stands, and the very same message objects are edited and validated
+	// again afterwards (an operator fixes up a loaded configuration and re-validates it): the second verdict is about
+	// the message as it is then, not about the object.
+	w.pre = guardOnce(func() error {
+		_, err := rctfe.ValidateLogMultiConfig(m)
+		return err
+	})
 	// 0-2 harmless edits, then at most one breaking or unspecified edit, applied last:
 	// the ground truth is known by construction.
 	w.verdict, w.setVerdict, w.breaking = "accept", "accept", "none"
@@ -559,7 +567,16 @@ func (w *CfgWorld) Finish(s *kernel.Sim) {
 	dir := s.TB.TempDir()
 	outcomes := map[string]cfgOutcome{}
 	// in-memory multi validation
+	if w.pre.panic != "" || !w.pre.accepted {
+		s.Violate("wellformed-rejected", "base", "ValidateLogMultiConfig refused (or panicked on) the well-formed set before any edit: %s%s", w.pre.err, w.pre.panic)
+		return
+	}
+	// the same message objects that were validated before the edits
 	outcomes["ValidateLogMultiConfig"] = guard(func() error {
+		_, err := rctfe.ValidateLogMultiConfig(w.multi)
+		return err
+	})
+	outcomes["ValidateLogMultiConfig/copy"] = guard(func() error {
 		_, err := rctfe.ValidateLogMultiConfig(proto.Clone(w.multi).(*configpb.LogMultiConfig))
 		return err
 	})
